@@ -47,7 +47,8 @@ def judge(case, obs):
         if st_ == "pending":
             out.append(("C15:%s:caller-never-completes" % drv, "%s is still pending after the drain (t=%.3f s)" % (where, obs["t_end"])))
         elif st_ == "raised":
-            if not (rec["exception"] == "ScriptedError" and cspec.get("raise_at") is not None):
+            refused = cspec.get("before_connect") and drv in ("luba", "sci") and rec["exception"] == "OSError"
+            if not refused and not (rec["exception"] == "ScriptedError" and (cspec.get("raise_at") is not None or rec.get("cleanup_raised"))):
                 e = rec.get("_exc")
                 out.append(("C15:%s:caller-raised:%s" % (drv, rec["exception"]),
                             "%s raised %s (in %s)" % (where, rec["exception_repr"], library_frame(e.__traceback__) if e else None)))
@@ -197,22 +198,35 @@ def case_strategy(draw, driver=None):
             c["raise_at"] = draw(st.integers(0, len(cmds)))
         elif r == 1:
             c["cancel"] = c["t0"] + draw(st.sampled_from([0.0, 0.001, 0.01, 0.02, 0.035, 0.05, 0.1, 0.26]))
+            if kind == "seq" and draw(st.booleans()):
+                c["bad_close"] = True
+        if draw(st.integers(0, 11)) == 0:
+            c["before_connect"] = True      # issued before connect(): HID drivers wait, serial drivers refuse (IOError)
         callers.append(c)
     case = {"driver": drv, "callers": callers, "lat": draw(st.lists(st.floats(0, 0.999), max_size=30)),
             "tie": draw(st.booleans())}
     if drv == "tridonic":
         case["seq0"] = draw(st.sampled_from([1, 100, 254, 255]))
+    if drv in ("luba", "sci") and draw(st.booleans()):
+        # several gateway frames handed over in one read
+        case["coalesce"] = draw(st.lists(st.booleans(), min_size=1, max_size=12))
     return case
 
 
 def features(case):
     f = ["driver:" + case["driver"]]
+    if any(case.get("coalesce", [])):
+        f.append("serial-frames-coalesced-into-one-read")
     for c in case["callers"]:
         f.append("caller:" + c["kind"])
         if "raise_at" in c:
             f.append("scripted-exception")
         if "cancel" in c:
             f.append("cancellation")
+        if c.get("bad_close"):
+            f.append("sequence-whose-cleanup-raises")
+        if c.get("before_connect"):
+            f.append("caller-started-before-connect")
         if any(x["k"] in DT for x in c["cmds"]):
             f.append("device-type-command" + (":single-send" if c["kind"] == "send" else ""))
         if any(x["k"] == "sleep" for x in c["cmds"]):
